@@ -651,10 +651,43 @@ def rule_r8(facts, rep, rid="C16-R8", only=None, floor=6):
                 rep.ok(rid, key, "derived (lexicographic over all fields, consistent with the derived ==)", "%s:%s" % (i.get("file"), i.get("line")))
                 continue
             if t == "Hash":
+                adt_h = facts.adts.get(ty)
+                fields_h = [fl["name"] for v in (adt_h or {}).get("variants", []) for fl in v.get("fields", [])] if adt_h and adt_h.get("kind") == "struct" else None
+                hf = [f for f in facts.body_fns() if f.def_.endswith("::hash") and (f.impl_self or "") == ty and fb.last_seg(f.impl_trait or "").startswith("Hash")]
+                if fields_h is not None and len(hf) == 1:
+                    rep.saw_fn(hf[0])
+                    hs = [y for y in fb.walk(hf[0].body) if y.get("k") in ("mcall", "call") and (y.get("name") == "hash" or (fb.callee(y) or "").endswith("Hash::hash"))]
+                    got = []
+                    for y in hs:
+                        so = _self_other_field(y.get("recv") if y.get("k") == "mcall" else (y.get("args") or [None])[0])
+                        got.append(so[1] if so and so[0] == "self" else None)
+                    others = [y for y in fb.walk(hf[0].body) if y.get("k") in ("mcall", "call") and y not in hs]
+                    if got == fields_h and not others:
+                        rep.ok(rid, key, "hand-written, hashes every field %s in declaration order (what the derive does)" % fields_h, "%s:%s" % (i.get("file"), i.get("line")))
+                        continue
                 rep.violation(rid, key, "%s has a hand-written Hash next to its order and ==: the three notions of `same value` (hash + ==, order) can disagree - map lookups, sort and dedup "
                               "then treat different values as one or one value as two" % fb.last_seg(ty), "%s:%s" % (i.get("file"), i.get("line")))
                 continue
             if t == "PartialEq":
+                adt_e = facts.adts.get(ty)
+                fields_e = [fl["name"] for v in (adt_e or {}).get("variants", []) for fl in v.get("fields", [])] if adt_e and adt_e.get("kind") == "struct" else None
+                ef = [f for f in facts.body_fns() if f.def_.endswith("::eq") and (f.impl_self or "") == ty and fb.last_seg(f.impl_trait or "").startswith("PartialEq")]
+                if fields_e is not None and len(ef) == 1:
+                    rep.saw_fn(ef[0])
+                    cmps = [y for y in fb.walk(ef[0].body) if (y.get("k") == "binary" and y["op"] == "==") or (y.get("k") == "mcall" and y["name"] == "eq" and y.get("args"))]
+                    got = set()
+                    plain = True
+                    for y in cmps:
+                        l = _self_other_field(y["l"] if y.get("k") == "binary" else y["recv"])
+                        r = _self_other_field(y["r"] if y.get("k") == "binary" else y["args"][0])
+                        if l is None or r is None or l[1] != r[1] or l[0] == r[0]:
+                            plain = False
+                        else:
+                            got.add(l[1])
+                    rest = [y for y in fb.walk(ef[0].body) if (y.get("k") in ("mcall", "call", "if", "match", "unary") and y not in cmps) or (y.get("k") == "binary" and y["op"] not in ("==", "&&"))]
+                    if plain and got == set(fields_e) and not rest:
+                        rep.ok(rid, key, "hand-written, compares every field %s for equality (what the derive does)" % sorted(got), "%s:%s" % (i.get("file"), i.get("line")))
+                        continue
                 rep.violation(rid, key, "%s has a hand-written == next to its order: `a == b` and `a.cmp(b) == Equal` can disagree, and then sort + dedup neither orders nor "
                               "de-duplicates the hash-ordered input" % fb.last_seg(ty), "%s:%s" % (i.get("file"), i.get("line")))
                 continue
